@@ -1230,3 +1230,51 @@ Lemma series_getint_spec {A} (s : series A) k :
   (- n <= k < 0 -> series_getint s k = getn (s_data s) (Z.to_nat (k + n))) /\
   (k < - n \/ n <= k -> series_getint s k = XErr XIndex).
 Proof. exact (getz_spec (s_data s) k). Qed.
+
+(* ================================================================ Epochs.__getitem__ *)
+Lemma epochs_getitem_keeps e k e' : epochs_getitem e k = XOk e' ->
+  e_offset e' = e_offset e /\ e_unit e' = e_unit e.
+Proof.
+  unfold epochs_getitem. destruct (e_scalar e); [discriminate|]. destruct k as [z|lo hi|l|m].
+  - destruct (getz (e_start e) z); cbn [xbind]; [|discriminate].
+    destruct (getz (e_stop e) z); cbn [xbind]; [|discriminate]. intros E; injection E as <-. auto.
+  - intros E; injection E as <-. auto.
+  - destruct (gatherz (e_start e) l); cbn [xbind]; [|discriminate].
+    destruct (gatherz (e_stop e) l); cbn [xbind]; [|discriminate]. intros E; injection E as <-. auto.
+  - destruct (negb _); [discriminate|].
+    destruct (gather (e_start e) (np_where m)); cbn [xbind]; [|discriminate].
+    destruct (gather (e_stop e) (np_where m)); cbn [xbind]; [|discriminate]. intros E; injection E as <-. auto.
+Qed.
+
+(* e[k] for an integer k: the scalar epoch (start_i, stop_i) of Python position i, same offset / unit *)
+Lemma epochs_getitem_int e z e' : length (e_stop e) = length (e_start e) ->
+  epochs_getitem e (EInt z) = XOk e' ->
+  exists i s p, py_index (length (e_start e)) z = Some i /\ nth_error (e_start e) i = Some s /\
+    nth_error (e_stop e) i = Some p /\ e' = mk_epochs [s] [p] true (e_offset e) (e_unit e).
+Proof.
+  intros L. unfold epochs_getitem, getz. rewrite L. destruct (e_scalar e); [discriminate|].
+  destruct (py_index (length (e_start e)) z) as [i|] eqn:P; cbn [xbind]; [|discriminate].
+  unfold getn. destruct (nth_error (e_start e) i) as [s|] eqn:Hs; cbn [xbind]; [|discriminate].
+  destruct (nth_error (e_stop e) i) as [p|] eqn:Hp; cbn [xbind]; [|discriminate].
+  intros E; injection E as <-. exists i, s, p. auto.
+Qed.
+
+Lemma epochs_getitem_scalar_refused e k : e_scalar e = true -> epochs_getitem e k = XErr XIndex.
+Proof. intros H. unfold epochs_getitem. rewrite H. reflexivity. Qed.
+
+(* whatever epoch object is used, the series returned by during starts at that object's offset *)
+Lemma series_during_t0 {A} (s : series A) e r : series_during s e = XOk r ->
+  d_t0 r = head_ps (e_offset e) /\ d_dt r = s_dt s /\ d_unit r = s_unit s.
+Proof.
+  destruct (e_scalar e) eqn:Sc.
+  - unfold series_during. rewrite Sc. destruct (uslice_during (series_time s) e); cbn [xbind]; [|discriminate].
+    intros E; injection E as <-. auto.
+  - intros H. destruct (series_during_rows s e r Sc H) as (T0 & DT & U & _). auto.
+Qed.
+
+(* selecting by an indexed / sliced epoch: the time axis still starts at the offset the epochs were built with *)
+Lemma series_during_indexed_t0 {A} (s : series A) e k e' r :
+  epochs_getitem e k = XOk e' -> series_during s e' = XOk r -> d_t0 r = head_ps (e_offset e).
+Proof.
+  intros G D. apply epochs_getitem_keeps in G as [O _]. apply series_during_t0 in D as [T _]. congruence.
+Qed.
